@@ -10,7 +10,7 @@ M3  the initialisation of those tables stays inside their declared bounds.
 import re
 
 from . import common, c07_total
-from .common import AnalysisBroken, strip, walk, const_value, string_value
+from .common import AnalysisBroken, strip, walk, const_value, string_value, calls
 
 EXPLANATION = (
     "M1: rows of ccSpecCharIdTable (genc.c): characters pairwise distinct and 7-bit, none alphanumeric, replacement strings "
@@ -21,7 +21,8 @@ EXPLANATION = (
     "gc0InitSpecialChars the loop's upper bound and every table character used as an index are below the declared bound of "
     "gcvIdChars/gcvIdCharc. M4 (sibling predicates): every relational comparison in genc.c between the unit's statement total "
     "(gcvNStmts or a variable copied to/from it) and the -Csmax limit gcvSMax has the same strictness (the majority form, "
-    "that of the gc0OverSMax macro); a site that splits at total == limit while the others do not makes header placement and "
+    "that of the gc0OverSMax macro); M5: in genc.c every declaration built without ccoStatic() inside a gc0OverSMax() branch (or in "
+    "both modes) uses a name variable whose split-mode constructor is gc0MultVarId (unit-qualified), never gc0VarId; a site that splits at total == limit while the others do not makes header placement and "
     "naming disagree. Not decided: collisions under identifier-length truncation and hashing (probabilistic by design), "
     "validity of the split files' contents and prototypes.")
 
@@ -131,6 +132,76 @@ def m4(rep):
                           % (var, op, major, ops[major]))
 
 
+def m5(rep):
+    """Split mode (-Csmax): a name declared without `static` must be unit-qualified (built by gc0MultVarId), because several
+    generated files are linked together."""
+    f = common.extract("genc.c", all_trees=True)
+    n = 0
+    for name, fn in sorted(f.funcs.items()):
+        if "body" not in fn or not fn.get("file", "").endswith("genc.c"):
+            continue
+        par = None
+
+        def context(node):
+            """'split' / 'nosplit' / 'any' from the enclosing if (gc0OverSMax()) tests"""
+            nonlocal par
+            if par is None:
+                par = common.parents(fn["body"])
+            ch, p = node, par.get(node["id"])
+            while p is not None:
+                if p["k"] == "IfStmt":
+                    c = strip(p["c"][0])
+                    neg = False
+                    while c is not None and c["k"] == "UnaryOperator" and c["op"] == "!":
+                        neg, c = not neg, strip(c["c"][0])
+                    if c is not None and (c.get("mac") == "gc0OverSMax" or c.get("imac") == "gc0OverSMax"):
+                        inthen = p["c"][1] is not None and p["c"][1]["id"] == ch["id"]
+                        inelse = p["c"][2] is not None and p["c"][2]["id"] == ch["id"]
+                        if inthen or inelse:
+                            return "split" if (inthen != neg) else "nosplit"
+                ch, p = p, par.get(p["id"])
+            return "any"
+        # constructors of each name variable, per context
+        ctor = {}
+        for x in walk(fn["body"]):
+            if x["k"] == "BinaryOperator" and x["op"] == "=":
+                l, r = strip(x["c"][0]), strip(x["c"][1])
+                if l is not None and r is not None and l["k"] == "DeclRefExpr" and r["k"] == "CallExpr" and r.get("callee") in ("gc0VarId", "gc0MultVarId"):
+                    ctor.setdefault(l["n"], []).append((context(x), r["callee"]))
+        if not ctor:
+            continue
+        for c in calls(fn["body"], "ccoNew"):
+            # ccoDecl(type, declarator) == ccoNew(CCO_Decl, 2, type, declarator)
+            if len(c["c"]) < 5 or common.enum_name(c["c"][1]) != "CCO_Decl":
+                continue
+            ctx = context(c)
+            if ctx == "nosplit":
+                continue
+            typ, decl = c["c"][3], c["c"][4]
+            is_static = any(y["k"] == "CallExpr" and y.get("callee") == "ccoNew" and common.enum_name(y["c"][1]) == "CCO_Static" for y in walk(typ)) \
+                or any(y["k"] == "DeclRefExpr" and y["n"] in ("ccoStatic",) for y in walk(typ))
+            if is_static:
+                continue
+            for y in walk(decl):
+                if y["k"] == "DeclRefExpr" and y["n"] in ctor:
+                    n += 1
+                    poss = {k for cx, k in ctor[y["n"]] if cx in ("split", "any")} if ctx == "split" else {k for cx, k in ctor[y["n"]]}
+                    key = "split-name-qualified:%s:%s@%d" % (name, y["n"], n)
+                    if ctx == "any" and all(cx == "nosplit" or k == "gc0MultVarId" for cx, k in ctor[y["n"]] if cx != "nosplit") and poss:
+                        # declaration built in both modes: only the split-mode constructor matters
+                        poss = {k for cx, k in ctor[y["n"]] if cx in ("split", "any")}
+                    if poss and poss <= {"gc0MultVarId"}:
+                        rep.ok("M5", key, nontrivial=True)
+                    elif ctx == "any" and not any(cx in ("split", "any") and k == "gc0VarId" for cx, k in ctor[y["n"]]):
+                        rep.ok("M5", key, nontrivial=True)
+                    else:
+                        rep.violation("M5", "split-name-qualified:%s:%s" % (name, y["n"]), "genc.c:%d (%s)" % (c["l"], name),
+                                      "in split mode (-Csmax) %s is declared without `static` but its name is built by gc0VarId, which is "
+                                      "not unit-qualified: two generated files that both contain such a constant define the same external "
+                                      "symbol and the program does not link" % y["n"])
+    rep.floor("non-static declarations of generated names reachable in split mode", n, 2)
+
+
 def run(tier, only=None):
     rep = common.Report("C16", tier, EXPLANATION)
     f = common.extract("genc.c", all_cfg=True)
@@ -179,6 +250,7 @@ def run(tier, only=None):
     if not checked:
         raise AnalysisBroken("gc0InitSpecialChars: table initialisation loop not recognised")
     m4(rep)
+    m5(rep)
     mx = max(ch for ch, _, _ in rows if ch is not None)
     if mx >= bound:
         rep.violation("M3", "table-chars", "genc.c (ccSpecCharIdTable)", "character %d indexes tables of %d elements" % (mx, bound))
